@@ -16,6 +16,9 @@ Decided:
          update_methods unions;
   R06.e  the 405 carries Allow: MethodNotAllowed stores a value derived from allowed_methods under the
          'Allow' header after the response is initialised.
+  R06.f  the first matching route answers also when its endpoint dies with an uncaught exception of *any* type: the
+         conversion that runs inside dispatch's generic handler (uncaught_to_response, the server-error constructors)
+         looks no module attribute up under a computed name without a default or a handler.
 Declined: which pattern matches (C05); full response content.
 """
 import ast
@@ -115,6 +118,14 @@ def run(rep):
     run_group(rep, _method_rules, rep, repo, app, route)
     rep.guard(lambda: rep.floor('R06.d', 12))
     run_group(rep, _allow_rules, rep, repo, err)
+
+    def conversion_rules():
+        # ---- R06.f -----------------------------------------------------------
+        rep.rule('R06.f', 'a route that dies with an uncaught exception answers with the handler\'s server error, whatever the exception\'s '
+                          'type: no lookup of a module attribute by computed name, outside a handler, in what runs inside dispatch\'s generic handler')
+        from .c08 import check_conversion_lookups
+        check_conversion_lookups(rep, 'R06.f')
+    run_group(rep, conversion_rules)
 
 
 def check_running_index(rep, rule):
